@@ -80,12 +80,13 @@ def _eval(e: ast.AST, known: Dict[str, Any]):
 
 
 class _Spec(ast.NodeTransformer):
-    def __init__(self, known):
+    def __init__(self, known, tests=None):
         self.known = known
         self.folded = 0
+        self.tests = tests or {}  # id(copied If / IfExp) -> its test with temporaries forward-substituted
 
     def visit_If(self, node: ast.If):
-        v = _eval(node.test, self.known)
+        v = _eval(self.tests.get(id(node), node.test), self.known)
         if v is _UNK:
             self.generic_visit(node)
             return node
@@ -100,7 +101,7 @@ class _Spec(ast.NodeTransformer):
         return out or [ast.copy_location(ast.Pass(), node)]
 
     def visit_IfExp(self, node: ast.IfExp):
-        v = _eval(node.test, self.known)
+        v = _eval(self.tests.get(id(node), node.test), self.known)
         if v is _UNK:
             self.generic_visit(node)
             return node
@@ -113,6 +114,19 @@ class _Spec(ast.NodeTransformer):
         return node
 
 
+def _prune_dead(node: ast.AST):
+    """After folding, statements that follow an unconditional return / raise / continue / break in the same block are dead
+    (`if not flag: return a` folded under flag=False leaves `return a; <rest>`): drop them."""
+    for n in ast.walk(node):
+        for fld in ("body", "orelse", "finalbody"):
+            block = getattr(n, fld, None)
+            if isinstance(block, list) and block and isinstance(block[0], ast.stmt):
+                for i, st in enumerate(block):
+                    if isinstance(st, (ast.Return, ast.Raise, ast.Continue, ast.Break)):
+                        del block[i + 1:]
+                        break
+
+
 def reassigned(func_node: ast.AST, names) -> set:
     out = set()
     for n in ast.walk(func_node):
@@ -121,14 +135,24 @@ def reassigned(func_node: ast.AST, names) -> set:
     return out
 
 
-def specialise(func_node: ast.AST, known: Dict[str, Any], allow_reassigned=()):
+def specialise(func_node: ast.AST, known: Dict[str, Any], allow_reassigned=(), inline_tests: bool = False):
     """(specialised copy, number of folded tests). Names re-assigned in the body are refused unless listed in
-    `allow_reassigned` (for `x = default if x is None`-style normalisation the caller vouches for)."""
+    `allow_reassigned` (for `x = default if x is None`-style normalisation the caller vouches for). With `inline_tests` a
+    test is decided on its expansion (temporaries forward-substituted: `flag = opt != 'x' and ...; if not flag:`)."""
     bad = reassigned(func_node, {k for k in known if "." not in k}) - set(allow_reassigned)
     if bad:
         raise ValueError(f"cannot specialise on re-assigned names {sorted(bad)}")
-    node = copy.deepcopy(func_node)
-    sp = _Spec(known)
+    memo: Dict[int, Any] = {}
+    node = copy.deepcopy(func_node, memo)
+    tests = {}
+    if inline_tests:
+        from .inline import Inliner
+        inl = Inliner(func_node, keep=set(k for k in known if "." not in k))
+        for n in ast.walk(func_node):
+            if isinstance(n, (ast.If, ast.IfExp)) and id(n) in memo:
+                tests[id(memo[id(n)])] = inl.expand(n.test)
+    sp = _Spec(known, tests)
     node = sp.visit(node)
+    _prune_dead(node)
     ast.fix_missing_locations(node)
     return node, sp.folded
